@@ -598,8 +598,22 @@ def rule_ag_mad(cx, rep, port='py'):
             rep.decide({'str', 'int', 'float'} <= types, name + ' scalar types', fd, 'str/int/float single arguments are aggregated', 'scalar type tests are {} (need str, int, float)'.format(sorted(t for t in types if t)))
         # TypeError fallback: only for a single argument, otherwise re-raise
         hs = [h for h in ast.walk(fd) if isinstance(h, ast.ExceptHandler)]
+        if not hs:
+            # the dispatch may live in a helper shared by the wrappers (module level or nested in compile_and_run)
+            for c in calls:
+                h_ = [s_ for s_ in car.body if isinstance(s_, ast.FunctionDef) and s_.name == c.func.id and s_ is not fd] or ([p.func('rbql_engine', c.func.id, required=False)] if p.func('rbql_engine', c.func.id, required=False) is not None else [])
+                for sc_ in h_:
+                    hs += [h for h in ast.walk(sc_) if isinstance(h, ast.ExceptHandler)]
         okh = len(hs) == 1 and dotted(hs[0].type) == 'TypeError' and isinstance(hs[0].body[-1], ast.Raise) and hs[0].body[-1].exc is None
-        rep.decide(okh, name + ' fallback', hs[0] if hs else fd, 'TypeError from the builtin: aggregate for one argument, otherwise re-raised', 'the TypeError fallback does not re-raise for non-single arguments')
+        # the same decision written the other way round: `if not single: raise` first, then the aggregate
+        bare = [r for h in hs for r in ast.walk(h) if isinstance(r, ast.Raise) and r.exc is None]
+        guarded_raise = len(hs) == 1 and dotted(hs[0].type) == 'TypeError' and len(bare) == 1 and isinstance(getattr(bare[0], 'parent', None), ast.If) and any(isinstance(x, ast.Return) for x in ast.walk(hs[0]))
+        if okh or guarded_raise:
+            rep.holds(name + ' fallback', hs[0], 'TypeError from the builtin: aggregate for one argument, otherwise re-raised')
+        elif hs and not bare:
+            rep.violated(name + ' fallback', hs[0], 'the TypeError fallback does not re-raise for non-single arguments')
+        else:
+            rep.undecided(name + ' fallback', hs[0] if hs else fd, 'how a TypeError of the builtin is handled was not recognised')
     # bindings in the skeleton: checked by SK-ALIAS (max = mad_max ...)
 
 
